@@ -15,10 +15,14 @@ class _WireMap(dict):
         super().__init__()
         self.interp = interp
         self.owner: dict[str, int] = {}
+        # every Hugr that ever owned a wire is kept alive: a collected (standalone, already inserted) Hugr would
+        # hand its id() to a later one and its wires would seem to belong to that one
+        self.alive: dict[int, object] = {}
 
     def __setitem__(self, k, v):
         super().__setitem__(k, v)
         self.owner[k] = id(self.interp._cur)
+        self.alive[id(self.interp._cur)] = self.interp._cur
 
 
 class Interp:
